@@ -97,3 +97,21 @@ Proof.
   split; [exact schema_is_the_models|]. split; [exact no_unexported_field|exact leaves_carry_their_own_encoding].
 Qed.
 Print Assumptions C13_translated_schema_is_the_models.
+
+(* On the source as read on this run (Generated/AppFrame.v): writing the state file changes
+   nothing of the application but the node-local LastSaved (the gob encoder only reads it), and
+   Commit nothing but that and the CheckTx bookkeeping - when a node saves is its own business
+   and cannot show in the replicated state. *)
+From Verif Require Import Generated.AppFrame Proofs.AppFrame.
+Theorem C13_translated_saving_changes_nothing :
+  In ("PersistToDisk"%string,
+      ["ShutterApp.LastSaved"; "dyn:(func() literal)"; "ext:gob.Encode:*ShutterApp"]%string) gen_entry_writes /\
+  In ("Commit"%string,
+      ["CheckTxState.NonceTracker"; "CheckTxState.TxCounts"; "ShutterApp.LastSaved";
+       "dyn:(func() literal)"; "ext:gob.Encode:*ShutterApp"]%string) gen_entry_writes /\
+  (forall s, eqc (App.commit s) s).
+Proof.
+  destruct frame_tables_agree as [-> _]. unfold model_entry_writes.
+  split; [|split]; [simpl; tauto | simpl; tauto | exact commit_frame].
+Qed.
+Print Assumptions C13_translated_saving_changes_nothing.
